@@ -249,6 +249,11 @@ func (e *Explorer) isCovered(label string) bool {
 }
 
 func (e *Explorer) noInit(path string) bool {
+	// golang.org/x/sync (singleflight's errGoexit sentinel) has plain
+	// package-level initialisers that must run
+	if strings.HasPrefix(path, "golang.org/x/sync/") {
+		return false
+	}
 	for _, p := range e.cfg.NoInitPrefixes {
 		if path == p || strings.HasPrefix(path, p) {
 			if strings.HasPrefix(path, "internal/") {
